@@ -141,6 +141,49 @@ func scenarioRelay() int {
 			run.Violation("proxy died during the run (belongs to C08; the run cannot continue)", map[string]any{"health": h})
 			break
 		}
+		if prop == "C01" && i%20 == 19 {
+			// pipelined: several messages written back-to-back on one connection (or from
+			// one socket) before the proxy has relayed the first
+			p := wire.Path{UA: g.R.Intn(len(w.UAs)), Svc: g.R.Intn(len(w.Svcs)), Proto: []string{"tcp", "tcp", "udp"}[g.R.Intn(3)]}
+			forcedPath = &p
+			var burst []*relayCase
+			var all []byte
+			for k := 0; k < 3+g.R.Intn(8); k++ {
+				bc := genRelayCase(w, g, i*100+k, prop)
+				raw := bc.in.Bytes()
+				if len(raw) > 20000 {
+					continue
+				}
+				burst = append(burst, bc)
+				if p.Proto == "tcp" {
+					all = append(all, raw...)
+				} else {
+					w.Send(p, raw, bc.id)
+				}
+			}
+			forcedPath = nil
+			if p.Proto == "tcp" && len(all) > 0 {
+				w.Send(p, all, "")
+			}
+			if !w.Barrier(p) {
+				run.Inconclusive(1)
+				w.DropConn(p)
+				continue
+			}
+			for _, bc := range burst {
+				obs := w.Net.ForCase(bc.id)
+				bc.nobs = len(obs)
+				bc.sig = "pipelined," + bc.sig
+				if judgeC01(run, w, bc, obs) && len(obs) == 1 {
+					relayed["pipelined/"+p.Proto]++
+				}
+				if len(obs) > 0 {
+					bc.in = nil
+				}
+				cases = append(cases, bc)
+			}
+			continue
+		}
 		c := genRelayCase(w, g, i, prop)
 		ua := w.UAs[c.path.UA]
 		if c.kind != "response" {
@@ -664,11 +707,21 @@ func genViaEntry(g *sip.Gen, host string, port int, transport string, branch str
 	return v.String()
 }
 
+// forcedPath, when set, pins the ingress path of the next generated cases (bursts).
+var forcedPath *wire.Path
+
 func genRelayCase(w *wire.World, g *sip.Gen, i int, prop string) *relayCase {
 	c := &relayCase{id: fmt.Sprintf("m%d", i)}
 	sidx := g.R.Intn(len(w.Svcs))
+	if forcedPath != nil {
+		sidx = forcedPath.Svc
+		c.id = fmt.Sprintf("q%d", i) // burst cases have their own id space
+	}
 	sv := w.Svcs[sidx]
 	c.path = wire.Path{UA: g.R.Intn(len(w.UAs)), Svc: sidx, Proto: []string{"udp", "tcp"}[g.R.Intn(2)]}
+	if forcedPath != nil {
+		c.path = *forcedPath
+	}
 	ua := w.UAs[c.path.UA]
 	kinds := []string{"backend", "route", "static", "response"}
 	switch prop {
@@ -765,6 +818,9 @@ func genRelayCase(w *wire.World, g *sip.Gen, i int, prop string) *relayCase {
 		sig = append(sig, "lay:"+lay, fmt.Sprintf("n%d", len(entries)))
 		name := []string{"Via", "v", "VIA", "V", "via"}[g.R.Intn(5)]
 		for _, v := range values {
+			if g.R.Intn(3) == 0 {
+				name = []string{"Via", "v", "VIA", "V", "via"}[g.R.Intn(5)]
+			}
 			m.Headers = append(m.Headers, sip.Header{Name: name, Value: v})
 		}
 		m.Headers = append(m.Headers,
@@ -829,6 +885,10 @@ func genRelayCase(w *wire.World, g *sip.Gen, i int, prop string) *relayCase {
 		vname := []string{"Via", "v", "VIA", "via"}[g.R.Intn(4)]
 		var vh []sip.Header
 		for _, v := range vvalues {
+			if g.R.Intn(3) == 0 {
+				// each line may have its own spelling
+				vname = []string{"Via", "v", "VIA", "via", "V"}[g.R.Intn(5)]
+			}
 			vh = append(vh, sip.Header{Name: vname, Value: v})
 		}
 		sig = append(sig, fmt.Sprintf("via%d:%s", vfMin(nv, 3), vlay))
@@ -967,7 +1027,27 @@ func decorateC01(g *sip.Gen, m *sip.Msg, c *relayCase) string {
 			sig = append(sig, k)
 		}
 	}
-	// typed headers from the grammar
+	// typed headers from the grammar (hosts in the sender's own letter case)
+	g.MixedCaseHosts = true
+	defer func() { g.MixedCaseHosts = false }()
+	if m.IsRequest() && g.R.Intn(3) == 0 {
+		// shaped like an in-dialog request: both tags present
+		to, _ := g.GenNameAddr(sip.NAOpts{AllowBare: true, Tag: g.Tag(), MaxHParams: 2, NoFindings: true, ForceSIP: c.kind == "static"})
+		if c.kind != "static" {
+			keepTel := false
+			for _, h := range m.Headers {
+				if sip.Canon(h.Name) == "to" && strings.HasPrefix(h.Value, "<tel:") {
+					keepTel = true // the To of these cases keeps the request off the default static route
+				}
+			}
+			if !keepTel {
+				wire.SetHeader(m, "To", to.String())
+			} else {
+				wire.SetHeader(m, "To", "<tel:+15550199>;tag="+g.Tag())
+			}
+			sig = append(sig, "in-dialog-shaped")
+		}
+	}
 	if !m.IsRequest() || g.R.Intn(2) == 0 {
 		from, _ := g.GenNameAddr(sip.NAOpts{AllowBare: true, Tag: g.Tag(), MaxHParams: 3, NoFindings: true})
 		wire.SetHeader(m, "From", from.String())
